@@ -922,8 +922,12 @@ class C07(ParseProp):
     level_text = ("Coq theorems over the parser model: every query Build constructs is well-typed in the sense of RFC 9535 2.4.3 unless it calls an "
                   "extension function, and all its index/slice/singular-query integers are within the I-JSON range (C07_typing, C07_int_range: "
                   "induction over Build's recursion). The grammar is translated to Coq on every run; single-token edits of valid sentences and "
-                  "arbitrary strings are run through the crate, its extracted model and the independent RFC recogniser (Concrete.v). The "
-                  "whole-language rejection theorem is NOT proved (partial).")
+                  "arbitrary strings are run through the crate, its extracted model and the independent RFC recogniser (Concrete.v). "
+                  "Rejection is proved for 28 classes of strings, each for all its members: no root, bad continuation, blank space before or "
+                  "after the query, leading zeros, -0, +, fraction in an index, an index outside the I-JSON range (every such integer), "
+                  "empty brackets/filter, unquoted name, bad escape, control character, half operators, missing operand, upper-case literals "
+                  "and more (RejectFacts/RejectMore/RejectRange: the grammar of the run executed on a fixed prefix with the rest symbolic). "
+                  "The whole-language rejection theorem is NOT proved (partial).")
     level_note = "whole-language inversion not proved (partial); the reference recogniser is a human transcription of the ABNF; extension-function calls are outside the property"
     rule = ("every case is a single-token edit (delete/insert/substitute/swap/duplicate a character, blank space anywhere, digit edits around 0, "
             "+-2^53 and the i64 limits, case flips, stray closers) of a rendered valid sentence, or an arbitrary string; a case counts when the "
